@@ -215,18 +215,41 @@ impl<'a> LoweringManager<'a> {
       }
       mir::Statement::Break(e) => vec![lir::Statement::Break(self.lower_expression(e))],
       mir::Statement::While { loop_variables, statements, break_collector } => {
+        // Loop variables are updated simultaneously in MIR, but both backends emit the updates
+        // one after another. A loop value that reads another loop variable of the same loop
+        // (e.g. the swapped arguments of a tail call) is therefore saved in a temporary first.
+        let loop_variable_names = loop_variables.iter().map(|v| v.name).collect_vec();
+        let mut saved_loop_values = Vec::new();
         let loop_variables = loop_variables
           .into_iter()
           .map(|mir::GenenalLoopVariable { name, type_, initial_value, loop_value }| {
+            let type_ = self.lower_type(type_);
+            let mut loop_value = self.lower_expression(loop_value);
+            let reads_other_loop_variable = match &loop_value {
+              lir::Expression::Variable(n, t) if *n != name && loop_variable_names.contains(n) => {
+                Some(t.clone())
+              }
+              _ => None,
+            };
+            if let Some(t) = reads_other_loop_variable {
+              let temp = self.heap.alloc_temp_str();
+              saved_loop_values.push(lir::Statement::Cast {
+                name: temp,
+                type_: t.clone(),
+                assigned_expression: loop_value,
+              });
+              loop_value = lir::Expression::Variable(temp, t);
+            }
             lir::GenenalLoopVariable {
               name,
-              type_: self.lower_type(type_),
+              type_,
               initial_value: self.lower_expression(initial_value),
-              loop_value: self.lower_expression(loop_value),
+              loop_value,
             }
           })
           .collect_vec();
-        let statements = self.lower_stmt_block(statements);
+        let mut statements = self.lower_stmt_block(statements);
+        statements.append(&mut saved_loop_values);
         let break_collector = if let Some(mir::VariableName { name, type_ }) = break_collector {
           Some((name, self.lower_type(type_)))
         } else {
